@@ -526,6 +526,9 @@ impl<'p, W, R, T> CompilationScope<'p, W, R, T> {
         &mut self,
         refs: impl IntoIterator<Item = ForwardRefRequirement>,
     ) -> Result<(), CompilationError> {
+        // in declaration order, so that the reference reported as missing does not depend on hash order
+        let mut refs: Vec<_> = refs.into_iter().collect();
+        refs.sort_by_key(|freq| (freq.ancestor_height, freq.ref_idx));
         for freq in refs {
             let fref = &self.forward_ref(&freq);
             if !fref.fulfilled {
